@@ -10,8 +10,10 @@ import (
 	"math"
 	"net/http"
 	"net/http/httptest"
+	"net/url"
 	"path"
 	"strconv"
+	"strings"
 	"sync"
 	"sync/atomic"
 	"time"
@@ -100,6 +102,10 @@ func (cm *cmafIngesterMgr) NewCmafIngester(req CmafIngesterSetup) (nr uint64, er
 
 	log := slog.Default().With(slog.Uint64("ingester", nr))
 
+	if u, err := url.ParseRequestURI(req.URL); err != nil || strings.ContainsAny(req.URL, " \t\r\n") || u.Path == "" {
+		// httptest.NewRequest panics on a target that is not a valid request URI
+		return 0, fmt.Errorf("bad livesimURL %q", req.URL)
+	}
 	mpdReq := httptest.NewRequest("GET", req.URL, nil)
 	if req.TestNowMS != nil {
 		mpdReq.URL.RawQuery = fmt.Sprintf("nowMS=%d", *req.TestNowMS)
